@@ -9,7 +9,7 @@
    F is any field of characteristic 0 (the reals of the implementation); order-dependent statements take an order [le] with the ordered-field
    laws as a premise ([OrderedField], satisfiable: C16_ex_ordered_Qc). *)
 From Coq Require Import ZArith QArith Qcanon List Bool Lia.
-From EXV Require Import Base.Scalar Base.FieldLemmas Base.Cplx Layout.Freq Gen.Guards DFT.DFT1 Metrics.Metrics Metrics.MetricsProofs IC.Normalize DFT.DFTD DFT.ParsevalD.
+From EXV Require Import Base.Scalar Base.FieldLemmas Base.Cplx Layout.Freq Gen.Guards DFT.DFT1 Metrics.Metrics Metrics.MetricsProofs IC.Normalize DFT.DFTD DFT.ParsevalD Metrics.ParsevalRealD.
 Import ListNotations.
 Local Open Scope fld_scope.
 
@@ -222,12 +222,23 @@ Theorem C16_parseval_half_spectrum : forall (F : FieldT) (FR : FormallyReal F) (
 Proof. intros F FR n w Hn H1 H2 H3 u. exact (parseval_half_spectrum F FR n w Hn H1 H2 H3 u). Qed.
 Print Assumptions C16_parseval_half_spectrum.
 
+(* real fields in every dimension: the stored half spectrum of the (D+1)-dimensional transform - EVERY leading-axis index, last-axis index
+   0..n/2, multiplicity 1 where the last-axis wavenumber is self-conjugate (0; n/2 for even n) and 2 elsewhere - carries n^(D+1) times the energy *)
+Theorem C16_parseval_half_spectrum_any_dimension : forall (F : FieldT) (FR : FormallyReal F) (n : nat) (w : cx F), (0 < n)%nat ->
+  @fpow (CField FR) w n = c1 F -> (forall m, (0 < m < n)%nat -> @fpow (CField FR) w m <> c1 F) -> cmul w (cconj w) = c1 F ->
+  forall (D : nat) (u : list nat -> F),
+  sumD F D n (fun lead => bsum (n / 2 + 1) (fun b => half_mult F n b * cnorm2 (rdftD F n w (S D) u (lead ++ [b]))))
+  = npts F (S D) n * sumD F (S D) n (fun j => u j * u j).
+Proof. intros F FR n w Hn H1 H2 H3 D u. exact (parseval_half_spectrum_D F FR n w Hn H1 H2 H3 D u). Qed.
+Print Assumptions C16_parseval_half_spectrum_any_dimension.
+
 (* FULL STATEMENT (not proved in this generality):
      forall D N (u : state on the N^D grid),  fourier_agg root D N L tau None None None (rfftn u) = spatial_agg root D N L u.
    Proved below for D = 1, every n >= 1 (odd and even), every outer exponent, for the model's own weights (scaling_recon), index set
    (half_indices) and volume factor.  For D >= 2 the full-spectrum identity IS proved (C16_parseval_bilinear_any_dimension, DFT/ParsevalD.v: applying C16_parseval_bilinear
-   along each axis of the iterated transform gives sum over the full spectrum U(k) V'(k) = N^D sum u v); what is missing is only the folding
-   of the full spectrum onto the stored half for D >= 2: the spectrum of a real field is Hermitian, U(-k) = conj U(k), so the stored half
+   along each axis of the iterated transform gives sum over the full spectrum U(k) V'(k) = N^D sum u v); the folding of the full spectrum onto the stored half for D >= 2 is proved as well
+   (C16_parseval_half_spectrum_any_dimension); what is missing is only the identification of the model's own index list / weights
+   (half_indices, scaling_recon) with that half-spectrum sum for D >= 2: the spectrum of a real field is Hermitian, U(-k) = conj U(k), so the stored half
    (last-axis wavenumber 0..N/2) together with its mirror image covers the full spectrum, the stored modes whose last-axis wavenumber is
    self-conjugate (0, and N/2 for even N) being their own mirror column - weight 1 - and all others - weight 2; this is exactly
    N^D / scaling_recon (reconstruction mode: denominator 2 only on the last axis, only off the mean/Nyquist modes).  The witness oracle checks
